@@ -238,6 +238,10 @@ class MathArray(np.ndarray):
                 # number instead of a (1, 1) array
                 if isinstance(result, MathArray) and is_numberlike_array(result):
                     return result.item()
+                elif isinstance(result, np.number):
+                    # vector * vector gives a numpy scalar, which numpy would silently
+                    # broadcast over arrays in later operations; return a Python number
+                    return result.item()
                 else:
                     return result
 
